@@ -61,7 +61,7 @@ func sortKeyedLists(p *types.Project) {
 }
 
 func genTargetModel(t *rapid.T, files bool) map[string]any {
-	return genModel(t, modelOpts{MaxServices: rapid.SampledFrom([]int{2, 2, 4}).Draw(t, "maxsvc"), NoFiles: !files, Rich: rapid.Bool().Draw(t, "rich"), Hostile: rapid.IntRange(0, 3).Draw(t, "hostile") == 0})
+	return genModel(t, modelOpts{MaxServices: rapid.SampledFrom([]int{2, 3, 4, 4}).Draw(t, "maxsvc"), NoFiles: !files, Rich: rapid.Bool().Draw(t, "rich"), Hostile: rapid.IntRange(0, 3).Draw(t, "hostile") == 0})
 }
 
 // applyTag rewrites the parts so that one service attribute is removed (`!reset`) or replaced without
